@@ -44,8 +44,8 @@ impl Property for C13 {
     fn params(&self, tier: Tier) -> Params {
         Params {
             cases: match tier {
-                Tier::Quick => 600,
-                Tier::Thorough => 15_000,
+                Tier::Quick => 5_000,
+                Tier::Thorough => 60_000,
             },
             max_bytes: 256,
             timeout: Duration::from_secs(60),
